@@ -140,6 +140,15 @@ CHECKS = {
               'hex-dumped results must agree to 1e-12, and bin/sum_product.py is run under -OO on generated JSON files and compared with the '
               'reference. Hooks prove that both J and J_precompute_products ran. One open finding: j_precompute=True (D6).'),
         design_ref='DESIGN.md §4 C11'),
+    'C12': dict(
+        technique='metamorphic monitor over presentations (orders, ids, renamings, value permutations) + PYTHONHASHSEED subprocess sweep; hooks record the SCC, elimination and edge orders actually taken (runtime monitoring)',
+        text=('Runtime monitoring: each generated grammar is realised in 7 presentations (random rule/node/edge insertion orders, explicit vs implicit '
+              'ids, consistent renaming of node labels, edge labels and domain values, permutation of domain values with the factor axes) and the '
+              'real sum_product (Real fixed-point/newton/linear, Log, Viterbi, Bool), Real gradients and viterbi weights of every presentation are '
+              'compared with the canonical one after permuting back (1e-9). Batches are also executed under PYTHONHASHSEED 0..3 in subprocesses and '
+              'compared. Hooks on scc, _order_nonterminals and sum_product_edges record the orders actually taken; the run is inconclusive unless at '
+              'least half of the grammars that offer a choice were seen under >= 2 distinct orders and the hash seeds changed some order.'),
+        design_ref='DESIGN.md §4 C12'),
 }
 
 NOT_BUILT = {}
